@@ -33,7 +33,13 @@ MK = {
     "iterate": lisp_eval("(fn [produce i n] (take n (map produce (iterate inc i))))", "verif.c06"),
     "py-iterable": lisp_eval("(fn [produce i n] (map produce (seq (python/list (range i n)))))", "verif.c06"),
 }
-FIRST, REST, NEXT, SEQ = cfn("first"), cfn("rest"), cfn("next"), cfn("seq")
+FIRST, REST, NEXT, SEQ, NTH = cfn("first"), cfn("rest"), cfn("next"), cfn("seq"), cfn("nth")
+OPSETS = {"seq-api": [0, 1, 2, 3], "python-protocol": [1, 4, 5, 6]}
+def opcode(opset, o):
+    for k in range(4):
+        if o == k:
+            return OPSETS[opset][k]
+    return 3
 def run_history(kind, n, throw_at, ops):
     """ops: list of (op, cell index). cells[k] = (object, offset). Returns False on any mismatch with the model."""
     del CALLS[:]
@@ -62,6 +68,25 @@ def run_history(kind, n, throw_at, ops):
                 if (r is None) != (off + 1 >= n):
                     return ("next", off, r)
                 cells.append((r, off + 1))
+            elif op == 4 or op == 5:   # Python iteration protocol: pull k = 1 or 2 elements with iter() / next()
+                k = op - 3
+                demanded = max(demanded, min(off + k - 1, n))
+                it = iter(obj)
+                got = []
+                for _ in range(k):
+                    try:
+                        got.append(next(it))
+                    except StopIteration:
+                        break
+                want = [("elem", i) for i in range(off, min(n, off + k))]
+                if got != want:
+                    return ("py-iter", off, got)
+            elif op == 6:    # nth with a default
+                demanded = max(demanded, min(off + 1, n))
+                v = NTH(obj, 1, "nf")
+                want = ("elem", off + 1) if off + 1 < n else "nf"
+                if v != want:
+                    return ("nth", off, v)
             else:            # seq
                 demanded = max(demanded, off)
                 r = SEQ(obj)
@@ -80,27 +105,28 @@ def run_history(kind, n, throw_at, ops):
     return True
 LOOKAHEAD = {"lazy-seq": 0, "map": 0, "filter-map": 0, "concat": 0, "concat-2-2": 0, "mapcat": 0, "lazy-cat": 0, "iterate": 0, "py-iterable": 0}
 def DIAG(**k):
-    ops = [(k[f"o{j}"], k[f"c{j}"]) for j in range(8) if f"o{j}" in k]
-    return {"history": run_history(KIND, k["n"], k["t"], ops), "calls": list(CALLS)}
+    ops = [(opcode(OPSET, k[f"o{j}"]), k[f"c{j}"]) for j in range(8) if f"o{j}" in k]
+    return {"history": run_history(KIND, k["n"], k["t"], ops), "operations": ops, "calls": list(CALLS)}
 '''
 
 
 COMPONENT_STARTS = {"concat": (0, 1), "concat-2-2": (0, 2), "mapcat": (0, 2), "lazy-cat": (0, 2)}   # indices that are the first element of a concatenated component
 
 
-def spec(kind, nops, timeout, throw_at=None, nmax=3):
+def spec(kind, nops, timeout, throw_at=None, nmax=3, opset="seq-api"):
     """throw_at None: no exceptions; otherwise the producer raises (once) at exactly that index, one obligation per index
     (a spec stops at its first counterexample, so a known failing index must not hide the others)"""
     args = "n: int, t: int, " + ", ".join(f"o{j}: int, c{j}: int" for j in range(nops))
     pre = [f"0 <= n <= {nmax}", (f"t == {throw_at}" if throw_at is not None else "t == -1")] + [x for j in range(nops) for x in (f"0 <= o{j} < 4", f"0 <= c{j} <= {j}")]
-    ops = ", ".join(f"(o{j}, c{j})" for j in range(nops))
+    ops = ", ".join(f"(opcode({opset!r}, o{j}), c{j})" for j in range(nops))
     body = f"    return run_history(KIND, n, t, [{ops}]) is True"
     pos = ""
     if throw_at is not None and kind in COMPONENT_STARTS:
         pos = "first-element-of-a-component" if throw_at in COMPONENT_STARTS[kind] else "inner-element"
-    return Spec(f"{kind}/history-len={nops}/" + (f"producer-throws-at-{throw_at}" if throw_at is not None else "no-exceptions"),
-                harness(args, body, pre=pre, module_code=MODULE + f"\nKIND = {kind!r}\n", warm=[]), timeout=timeout,
-                bound=f"sequences of <= {nmax} elements, {nops} consumption steps (first/rest/next/seq on any cell obtained so far)"
+    return Spec(f"{kind}/{'' if opset == 'seq-api' else opset + '/'}history-len={nops}/" + (f"producer-throws-at-{throw_at}" if throw_at is not None else "no-exceptions"),
+                harness(args, body, pre=pre, module_code=MODULE + f"\nKIND = {kind!r}\nOPSET = {opset!r}\n", warm=[]), timeout=timeout,
+                bound=f"sequences of <= {nmax} elements, {nops} consumption steps ("
+                      + ("first/rest/next/seq" if opset == "seq-api" else "rest / iter()+next() x1 / x2 / nth") + " on any cell obtained so far)"
                       + (f", producer throwing once at index {throw_at}" if throw_at is not None else ""),
                 meta={"kind": kind, "throw": throw_at is not None, "throw_position": pos})
 
@@ -119,11 +145,13 @@ def run(rep, tier, seed):
         nmax = 4 if k in ("concat-2-2", "mapcat", "lazy-cat") else 3
         tk = to * 2 if (quick and k in COMPONENT_STARTS) else to     # concat-family paths are ~1.5x slower
         specs.append(spec(k, nops, tk, None, nmax))
+        if k in ("lazy-seq", "map", "filter-map", "concat", "iterate", "py-iterable"):
+            specs.append(spec(k, nops, tk, None, nmax, opset="python-protocol"))
         for t in range(nmax):
             specs.append(spec(k, nops, tk, t, nmax))
     rep.bounds = {"elements": "<= 3", "consumption steps": nops, "producers": kinds}
     rep.outside = ["multi-threaded consumers, deadlock freedom: NOT APPLICABLE to this technique here (native Rust under parking_lot + GIL; see DESIGN section 5)",
-                   "the Rust code itself is executed, not encoded", "count / nth / Python iteration as consumers"]
+                   "the Rust code itself is executed, not encoded", "count / reduce as consumers"]
     rep.trusted += ["crosshair-tool 0.0.110 + z3", "offset model of a lazy sequence (vlib/props/c06.py)"]
     rep.extra["explanation"] = "solver-chosen consumption programs over branching cells; data is concrete per path"
 
